@@ -404,4 +404,199 @@ theorem length_le_flatMap_bytes : ∀ (ss : List TSeg), ss.length ≤ (ss.flatMa
       omega
     omega
 
+/-! ### storage unit label -/
+
+theorem decDigitsAux_spec : ∀ (f n : Nat) (acc : Bytes), n < f →
+    ∃ ds, decDigitsAux f n acc = ds ++ acc ∧
+      (∀ a, ds.foldl (fun a d => a * 10 + (d - 48)) a = a * 10 ^ ds.length + n) ∧
+      (∀ c ∈ ds, mDigit c = true) ∧ (1 ≤ n → ∃ d t, ds = d :: t ∧ 49 ≤ d ∧ d ≤ 57) := by
+  intro f
+  induction f with
+  | zero => intro n acc h; omega
+  | succ f ih =>
+    intro n acc hn
+    unfold decDigitsAux
+    by_cases h10 : n < 10
+    · refine ⟨[48 + n], by simp [h10], ?_, ?_, ?_⟩
+      · intro a; simp
+      · intro c hc; simp at hc; subst hc; simp [mDigit]; omega
+      · intro h1; exact ⟨48 + n, [], rfl, by omega, by omega⟩
+    · obtain ⟨ds, h1, h2, h3, h4⟩ := ih (n / 10) ((48 + n % 10) :: acc) (by omega)
+      refine ⟨ds ++ [48 + n % 10], by simp [h10, h1], ?_, ?_, ?_⟩
+      · intro a
+        rw [List.foldl_append, h2]
+        simp only [List.foldl_cons, List.foldl_nil, List.length_append, List.length_cons, List.length_nil]
+        rw [Nat.pow_succ, ← Nat.mul_assoc, Nat.add_mul]
+        omega
+      · intro c hc
+        rcases List.mem_append.mp hc with hc | hc
+        · exact h3 c hc
+        · simp at hc; subst hc; simp [mDigit]; omega
+      · intro _
+        obtain ⟨d, t, hd, hd1, hd2⟩ := h4 (by omega)
+        exact ⟨d, t ++ [48 + n % 10], by simp [hd], hd1, hd2⟩
+
+theorem decDigits_spec (n : Nat) :
+    ofDec (decDigits n) = n ∧ (∀ c ∈ decDigits n, mDigit c = true) ∧
+      (1 ≤ n → ∃ d t, decDigits n = d :: t ∧ 49 ≤ d ∧ d ≤ 57) := by
+  obtain ⟨ds, h1, h2, h3, h4⟩ := decDigitsAux_spec (n + 1) n [] (by omega)
+  unfold decDigits ofDec
+  rw [h1, List.append_nil]
+  exact ⟨by rw [h2]; simp, h3, h4⟩
+
+theorem dropWhile_fill (fill : Bytes) (d : Nat) (t : Bytes) (hf : fill.all isFill = true) (hd : 49 ≤ d) :
+    (fill ++ d :: t).dropWhile mFill = d :: t := by
+  induction fill with
+  | nil =>
+    have : mFill d = false := by unfold mFill; simp; omega
+    simp [this]
+  | cons c cs ih =>
+    simp only [List.all_cons, Bool.and_eq_true] at hf
+    have : mFill c = true := hf.1
+    simp [this, ih hf.2]
+
+theorem dropWhile_digits (t : Bytes) (h : ∀ c ∈ t, mDigit c = true) : t.dropWhile mDigit = [] ∧ t.takeWhile mDigit = t := by
+  induction t with
+  | nil => simp
+  | cons c cs ih =>
+    have hc : mDigit c = true := h c (by simp)
+    have := ih (fun x hx => h x (by simp [hx]))
+    simp [List.dropWhile, List.takeWhile, hc, this]
+
+theorem scanNum_enc (fill : Bytes) (n : Nat) (hf : fill.all isFill = true) (hn : 1 ≤ n) :
+    scanNum (fill ++ decDigits n) = some (decDigits n) := by
+  obtain ⟨_, hdig, hhead⟩ := decDigits_spec n
+  obtain ⟨d, t, hdt, h1, h2⟩ := hhead hn
+  rw [hdt] at hdig ⊢
+  unfold scanNum
+  rw [dropWhile_fill fill d t hf h1]
+  obtain ⟨hdw, htw⟩ := dropWhile_digits t (fun c hc => hdig c (by simp [hc]))
+  simp [hdw, htw, atDollar, h1, h2]
+
+theorem five_split (A B C D E : Bytes) (hA : A.length = 4) (hB : B.length = 5) (hC : C.length = 6) (hD : D.length = 5) :
+    let X := A ++ B ++ C ++ D ++ E
+    X.take 4 = A ∧ (X.drop 4).take 5 = B ∧ (X.drop 9).take 6 = C ∧ (X.drop 15).take 5 = D ∧ X.drop 20 = E := by
+  intro X
+  have hX : X = A ++ (B ++ (C ++ (D ++ E))) := by simp [X, List.append_assoc]
+  have d4 : X.drop 4 = B ++ (C ++ (D ++ E)) := by rw [hX]; exact List.drop_left' hA
+  have d9 : X.drop 9 = C ++ (D ++ E) := by
+    rw [show (9 : Nat) = 4 + 5 from rfl, drop_add', d4]; exact List.drop_left' hB
+  have d15 : X.drop 15 = D ++ E := by
+    rw [show (15 : Nat) = 9 + 6 from rfl, drop_add', d9]; exact List.drop_left' hC
+  have d20 : X.drop 20 = E := by
+    rw [show (20 : Nat) = 15 + 5 from rfl, drop_add', d15]; exact List.drop_left' hD
+  refine ⟨by rw [hX]; exact List.take_left' hA, by rw [d4]; exact List.take_left' hB,
+    by rw [d9]; exact List.take_left' hC, by rw [d15]; exact List.take_left' hD, d20⟩
+
+theorem regexes_ok : regexesAsModelled = true := by decide
+
+theorem SULW.conformant_iff (s : SULW) (h : s.conformant = true) :
+    1 ≤ s.seq ∧ s.seqFill.all isFill = true ∧ s.seqFill.length + (decDigits s.seq).length = 4 ∧
+    (∃ a b, s.ver = [86, 49, 46, a, b] ∧ mDigit a = true ∧ mDigit b = true) ∧
+    20 ≤ s.maxLen ∧ s.maxLen ≤ 16384 ∧ s.maxFill.all isFill = true ∧
+    s.maxFill.length + (decDigits s.maxLen).length = 5 ∧ s.ident.length = 60 := by
+  unfold SULW.conformant at h
+  simp only [Bool.and_eq_true, decide_eq_true_eq, beq_iff_eq] at h
+  obtain ⟨⟨⟨⟨⟨⟨⟨⟨⟨h1, h2⟩, h3⟩, h4⟩, h5⟩, h6⟩, h7⟩, h8⟩, h9⟩, _⟩ := h
+  refine ⟨h1, h2, h3, ?_, h5, h6, h7, h8, h9⟩
+  split at h4
+  · rename_i a b hv
+    simp only [Bool.and_eq_true] at h4
+    exact ⟨a, b, hv, h4.1, h4.2⟩
+  · exact absurd h4 (by simp)
+
+theorem encodeSUL_length (s : SULW) (h : s.conformant = true) : (encodeSUL s).length = 80 := by
+  obtain ⟨_, _, h3, ⟨a, b, hv, _, _⟩, _, _, _, h8, h9⟩ := s.conformant_iff h
+  unfold encodeSUL recordWord
+  simp only [List.length_append, hv, List.length_cons, List.length_nil, h9]
+  omega
+
+theorem sulParse_enc (s : SULW) (h : s.conformant = true) :
+    sulParse (encodeSUL s) = some ⟨s.seq, s.ver, recordWord, s.maxLen, s.ident⟩ := by
+  have hlen := encodeSUL_length s h
+  obtain ⟨h1, h2, h3, ⟨a, b, hv, ha, hb⟩, h5, _, h7, h8, _⟩ := s.conformant_iff h
+  obtain ⟨t4, t5, t6, t7, t8⟩ := five_split (s.seqFill ++ decDigits s.seq) s.ver recordWord
+    (s.maxFill ++ decDigits s.maxLen) s.ident (by simpa using h3) (by simp [hv]) rfl (by simpa using h8)
+  have e : encodeSUL s = s.seqFill ++ decDigits s.seq ++ s.ver ++ recordWord ++ (s.maxFill ++ decDigits s.maxLen) ++ s.ident := rfl
+  unfold sulParse
+  rw [regexes_ok, e]
+  rw [e] at hlen
+  simp only [Bool.not_true, Bool.false_eq_true, if_false, hlen, ne_eq, not_true_eq_false] at t4 t5 t6 t7 t8 ⊢
+  rw [t4, t5, t6, t7, t8, scanNum_enc _ _ h2 h1, scanNum_enc _ _ h7 (by omega)]
+  have hsv : scanVersion s.ver = some s.ver := by rw [hv]; simp [scanVersion, ha, hb, atDollar]
+  have hss : scanStructure recordWord = some recordWord := by decide
+  simp only [hsv, hss, (decDigits_spec s.seq).1, (decDigits_spec s.maxLen).1]
+
+/-! ### counting first segments -/
+
+theorem filter_first_cutRec_false (r : LR) : ∀ (ds : List SegDesc) (data : Bytes),
+    (cutRec r false ds data).filter (·.first) = [] := by
+  intro ds
+  induction ds with
+  | nil => intro data; rfl
+  | cons d ds ih => intro data; simp [cutRec, ih]
+
+theorem count_first_cutAll : ∀ (recs : List LR) (dss : List (List SegDesc)), recsOK recs dss = true →
+    ((cutAll recs dss).filter (·.first)).length = recs.length := by
+  intro recs
+  induction recs with
+  | nil => intro dss _; cases dss <;> simp [cutAll]
+  | cons r rs ih =>
+    intro dss h
+    cases dss with
+    | nil => simp [recsOK] at h
+    | cons ds dss =>
+      simp only [recsOK, recOK, Bool.and_eq_true, Bool.not_eq_true'] at h
+      obtain ⟨⟨⟨⟨⟨hne, _⟩, _⟩, _⟩, _⟩, hrest⟩ := h
+      cases ds with
+      | nil => simp at hne
+      | cons d ds' =>
+        simp [cutAll, cutRec, filter_first_cutRec_false, ih dss hrest]
+
+/-! ### the whole file -/
+
+theorem iterLR_flat (sul : SULW) (segs : List TSeg) (hs : sul.conformant = true) (hne : segs ≠ [])
+    (W : segsWF 0 true segs) :
+    iterLR (encodeSUL sul ++ segs.flatMap TSeg.bytes) = (collect segs none, none) := by
+  have hlen := encodeSUL_length sul hs
+  cases segs with
+  | nil => exact absurd rfl hne
+  | cons s ss =>
+    obtain ⟨hn, h16, hf, hm⟩ := W
+    cases hv : s.d.vr with
+    | none => rw [hv] at hm; exact absurd rfl hm.1
+    | some L =>
+      rw [hv] at hm
+      obtain ⟨_, hL1, hL2, hL3, hW⟩ := hm
+      generalize hb : encodeSUL sul ++ (s :: ss).flatMap TSeg.bytes = b
+      have ht : b.take 80 = encodeSUL sul := by rw [← hb]; exact List.take_left' hlen
+      have hd80 : b.drop 80 = vrHeader (some L) ++ (s.lrsBytes ++ ss.flatMap TSeg.bytes) := by
+        rw [← hb, List.drop_left' hlen, List.flatMap_cons, TSeg.bytes, hv, List.append_assoc]
+      have hd84 : b.drop 84 = s.lrsBytes ++ ss.flatMap TSeg.bytes := by
+        rw [show (84 : Nat) = 80 + 4 from rfl, drop_add', hd80]; exact List.drop_left' rfl
+      obtain ⟨h, hh, hpos, A⟩ := atSeg_of_drop b 84 s _ hd84 hn
+      have hfirst : h.isFirst = true := by rw [isFirst_enc A.attr]; exact hf rfl
+      have I : Inv ⟨80, L⟩ h (L - (4 + s.d.segLen)) := by
+        have := A.len
+        constructor <;> simp only [hpos] <;> omega
+      have hfuel : ss.length < b.length + 1 := by
+        have := length_le_flatMap_bytes ss
+        rw [← hb]; simp only [List.length_append, List.flatMap_cons]; omega
+      unfold iterLR
+      rw [ht, sulParse_enc sul hs]
+      simp only [readVR_enc b 80 L _ hL1 hL2 hd80, hh, hfirst, Bool.not_true, Bool.false_eq_true, if_false]
+      exact iterGo_flat b ss s _ _ h none _ hfuel A I h16 hW
+
+theorem iterLR_encode (sul : SULW) (recs : List LR) (ℓ : Layout) (hs : sul.conformant = true) (hne : recs ≠ [])
+    (hc : ℓ.conformant recs = true) : iterLR (encode sul recs ℓ) = (recs, none) := by
+  unfold Layout.conformant at hc
+  simp only [Bool.and_eq_true] at hc
+  have hcut : cutAll recs ℓ.recs ≠ [] := by
+    intro h0
+    have := collect_cutAll recs ℓ.recs hc.1
+    rw [h0] at this
+    exact hne (by simpa [collect] using this.symm)
+  unfold encode
+  rw [iterLR_flat sul _ hs hcut (segsWF_cutAll recs ℓ.recs 0 hc.1 hc.2), collect_cutAll recs ℓ.recs hc.1]
+
 end TD.C01
